@@ -325,6 +325,24 @@ def handle (line : String) : String :=
         else e
       " | ".intercalate (runResource (Res.init d) true evl [showRes (Res.init d) true])
     | none => "bad-op"
+  | "resourcebo" :: d :: evs :: [] =>
+    match d.toNat? with
+    | some d =>
+      let evl := if evs == "-" then [] else evs.splitOn ","
+      let go := fun (acc : Option (Res × List String)) (e : String) =>
+        match acc with
+        | none => none
+        | some (r, out) =>
+          let ev : Option REv :=
+            if e.startsWith "w" then (e.drop 1).toString.toNat?.map .write
+            else if e.startsWith "f" then (e.drop 1).toString.toNat?.map .finish else none
+          match ev with
+          | none => none
+          | some ev => let r' := boStep r ev; some (r', out ++ [showRes r' true])
+      match evl.foldl go (some (boInit d, [showRes (boInit d) true])) with
+      | some (_, out) => " | ".intercalate out
+      | none => "bad-op"
+    | none => "bad-op"
   | "resourceself" :: d :: c :: evs :: [] =>
     match d.toNat?, c.toNat? with
     | some d, some c => " | ".intercalate (runResourceSelf c (Res.init d) true (if evs == "-" then [] else evs.splitOn ",") [showRes (Res.init d) true])
